@@ -109,8 +109,8 @@ pub closed spec fn offer_post(r: Seq<EnrichedFixture>, avail: Seq<FixtureDefinit
 /*@ extract src/providers/completion.rs filter_and_enrich_fixtures
 @tags C18
 @ret r
-@closure 1 |f: &FixtureDefinition| -> (b: bool) ensures b == !op_excluded(dv(f), decl_view(declared_params), opts_view(opts))
-@closure 2 |f: FixtureDefinition| -> (e: EnrichedFixture) ensures e.fixture == f, e.sort_text@ == sort_text_of(op_priority(dv(&f), pv(file_path)), f.name@), e.detail@ == detail_of(dv(&f))
+@closure filter:1 |f: &FixtureDefinition| -> (b: bool) ensures b == !op_excluded(dv(f), decl_view(declared_params), opts_view(opts))
+@closure map:1 |f: FixtureDefinition| -> (e: EnrichedFixture) ensures e.fixture == f, e.sort_text@ == sort_text_of(op_priority(dv(&f), pv(file_path)), f.name@), e.detail@ == detail_of(dv(&f))
 @sig
     ensures offer_post(r@, available@, pv(file_path), decl_view(declared_params), opts_view(opts)),
 @*/
